@@ -87,14 +87,15 @@ class Built:
 
 
 def build(case, argv=None, monitor=None, max_steps=20000, timeout_ms=20000, sym_prefix='', addr_cap=16,
-          stack_garbage=False, compiled=None, total_steps=None, deadline=None):
+          stack_garbage=False, compiled=None, total_steps=None, deadline=None, concretize_ap=False, max_paths=3000):
     b = Built()
     b.case = case
     b.compiled = compiled or H.compile_src(case.src, case.word, case.stack, case.unchecked, case.lint)
     spec = conc_argspec(b.compiled, argv) if argv is not None else sym_argspec(b.compiled, case.arrays)
     b.prog = assemble(b.compiled.lines, spec)
     b.vm = VM(b.prog, max_steps=max_steps, timeout_ms=timeout_ms, monitor=monitor, sym_prefix=sym_prefix,
-              addr_cap=addr_cap, stack_garbage=stack_garbage, total_steps=total_steps, deadline=deadline)
+              addr_cap=addr_cap, stack_garbage=stack_garbage, total_steps=total_steps, deadline=deadline, max_paths=max_paths,
+              concretize_dests=({b.prog.label_addr('ap')} if concretize_ap else ()))
     return b
 
 
